@@ -54,4 +54,7 @@ package extract
 //@   ensures[C16] err == nil && opts != nil && !opts.ForceFetch && opts.EventLogLocation == "" && getterCalls == old(getterCalls) ==> lastLocalFound
 //@   ensures[C16] err == nil && opts != nil && !opts.ForceFetch && opts.EventLogLocation == "" && getterCalls == old(getterCalls) ==> val(out) == lastLocal
 //@   ensures[C16] opts != nil && !opts.ForceFetch && opts.EventLogLocation == "" && lastLocalFound ==> getterCalls == old(getterCalls)
+// (a forced fetch that succeeds has fetched: no local copy - from the supplied quote or from the quote provider - is
+// returned in its place)
+//@   ensures[C16] err == nil && opts != nil && opts.ForceFetch ==> getterCalls == old(getterCalls) + 1
 //@   ensures[C16] getterCalls <= old(getterCalls) + 1 || (opts != nil && opts.EventLogLocation != "" && !opts.ForceFetch)
